@@ -47,10 +47,29 @@ def handleOp (o : Op) : String :=
       if nonce.length != 24 then "bad-op" else showOpen (boxOpen out box nonce dh)
     | _, _, _ => "bad-op"
   | "anseal" =>
-    match o.hex? "recipient", o.hex? "msg", o.hex? "oracle.epk", dhOf o "oracle.dh" with
-    | some rc, some msg, some epk, some dh =>
-      if rc.length != 32 || epk.length != 32 then "bad-op" else showSeal (sealAnon out msg rc epk dh)
-    | _, _, _, _ => "bad-op"
+    match o.hex? "recipient", o.hex? "msg", o.hex? "oracle.epk", dhOf o "oracle.dh", o.hex? "esk" with
+    | some rc, some msg, some epk, some dh, some esk =>
+      if rc.length != 32 || epk.length != 32 then "bad-op" else
+      match sealAnonRand out msg rc esk epk dh with
+      | none => "err"
+      | some r => showSeal r
+    | _, _, _, _, _ => "bad-op"
+  | "anrt" => "roundtrip-ok"   -- SealAnonymous with rand = nil (crypto/rand) then OpenAnonymous: `openAnon_sealAnon`
+  | "bxgen" =>
+    match o.hex? "seed", o.hex? "oracle.pub" with
+    | some seed, some pub =>
+      match boxGenerateKey seed pub with
+      | none => "err"
+      | some (pk, sk) => s!"{toHex pk} {toHex sk}"
+    | _, _ => "bad-op"
+  | "sgen" =>
+    match o.hex? "seed", o.hex? "oracle.pub" with
+    | some seed, some pub =>
+      match signGenerateKey seed pub with
+      | none => "err"
+      | some (pk, sk) => s!"{toHex pk} {toHex sk}"
+    | _, _ => "bad-op"
+  | "api" => s!"box.Overhead={boxOverhead} box.AnonymousOverhead={anonymousOverhead} secretbox.Overhead={boxOverhead} sign.Overhead={signOverhead} auth.Size={authSize} auth.KeySize={authKeySize}"
   | "anopen" =>
     match o.hex? "pub", o.hex? "box", dhOf o "oracle.dh" with
     | some pk, some box, some dh =>
